@@ -35,6 +35,8 @@ pub enum WEv {
     Pending,
     Sleep(u64),
     Err,
+    /// this write is interrupted (ErrorKind::Interrupted) without taking anything
+    Intr,
 }
 
 #[derive(Default)]
@@ -154,6 +156,11 @@ impl AsyncWrite for ScriptStream {
                 cx.waker().wake_by_ref();
                 Poll::Pending
             }
+            Some(WEv::Intr) => {
+                me.w.pop_front();
+                me.sh.lock().unwrap().write_failures += 1;
+                Poll::Ready(Err(std::io::Error::new(std::io::ErrorKind::Interrupted, "interrupted")))
+            }
             Some(WEv::Sleep(_)) => unreachable!(),
             Some(WEv::Accept(k)) => {
                 let n = (*k).min(buf.len());
@@ -227,6 +234,7 @@ pub fn parse_wscript(t: &mut Toks) -> PResult<VecDeque<WEv>> {
         v.push_back(match s {
             "p" => WEv::Pending,
             "x" => WEv::Err,
+            "i" => WEv::Intr,
             _ => {
                 if let Some(h) = s.strip_prefix("a:") {
                     WEv::Accept(usize::from_str_radix(h, 16).map_err(|e| e.to_string())?)
@@ -249,6 +257,15 @@ fn runtime() -> tokio::runtime::Runtime {
         .start_paused(true)
         .build()
         .expect("runtime")
+}
+
+/// a current-thread runtime with the I/O driver only (no time driver): what `Builder::new_current_thread().enable_io()` gives
+fn run_without_time<F: std::future::Future>(fut: F) -> std::result::Result<F::Output, String> {
+    let r = catch_unwind(AssertUnwindSafe(|| {
+        let rt = tokio::runtime::Builder::new_current_thread().enable_io().build().expect("runtime");
+        rt.block_on(fut)
+    }));
+    r.map_err(|p| p.downcast_ref::<String>().cloned().or_else(|| p.downcast_ref::<&str>().map(|s| s.to_string())).unwrap_or_else(|| "panic".into()))
 }
 
 /// runs a future to completion under paused time; None = it never completed (hang)
@@ -304,6 +321,15 @@ fn is_eof(e: &diameter::error::Error) -> bool {
 
 /// SD <dict> <k> <rscript>: k successive Codec::decode calls on one scripted reader
 pub fn decode_n(st: &State, t: &mut Toks) -> PResult<String> {
+    decode_n_on(st, t, false)
+}
+
+/// SDN: as SD, on a runtime that has no time driver (scripts without timed pauses)
+pub fn decode_n_notime(st: &State, t: &mut Toks) -> PResult<String> {
+    decode_n_on(st, t, true)
+}
+
+fn decode_n_on(st: &State, t: &mut Toks, notime: bool) -> PResult<String> {
     let dict = st.dicts.get(t.next()?).ok_or_else(|| "unknown dict".to_string())?.clone();
     let k = t.usize_dec()?;
     let rs = parse_rscript(t)?;
@@ -313,6 +339,7 @@ pub fn decode_n(st: &State, t: &mut Toks) -> PResult<String> {
     let out = Arc::new(Mutex::new(String::from("SD")));
     let out2 = Arc::clone(&out);
     let spawned = (k + stream.r.len()) % 2 == 1;
+    let no_time = notime && !stream.r.iter().any(|e| matches!(e, REv::Sleep(_)));
     let fut = async move {
         for _ in 0..k {
             let r = Codec::decode(&mut stream, Arc::clone(&dict)).await;
@@ -329,7 +356,7 @@ pub fn decode_n(st: &State, t: &mut Toks) -> PResult<String> {
             let _ = write!(o, " @{}]", sh2.lock().unwrap().consumed);
         }
     };
-    let res = if spawned { run_to_end_spawned(fut) } else { run_to_end(fut) };
+    let res = if no_time { run_without_time(fut).map(Some) } else if spawned { run_to_end_spawned(fut) } else { run_to_end(fut) };
     let mut o = out.lock().unwrap().clone();
     match res {
         Ok(Some(())) => {}
